@@ -10,7 +10,8 @@ Property theorems only.  Models: `MindsVerif.Err` (`ErrorHandling.error_location
 `make_suggestion`, `process`, `MindsDBLexer.error`) and `MindsVerif.LR.parse` (which token is the
 bad token, what is expected).  Strings are `List Char`.
 
-The full statement is FALSE on the pinned tree (see the witnesses); what is proved:
+The full statement over arbitrary token records is false (see the witnesses; the rewritten-value class was
+repaired in the code by repo 5f4cdd1, the newline-in-token class is still real); what is proved:
 * `C19_caret_partial` / `C19_caret_source` / `C19_eof_caret` — caret arithmetic for ALL token layouts
   that satisfy the lexer position invariants `layoutOK` (line numbers never decrease; a token
   starts at or after the end of the *value* of its predecessor), incl. multi-line shifting;
@@ -79,7 +80,9 @@ theorem C19_caret_partial (toks : List Tok) (b : Tok) (hl : layoutOK toks = true
 
 /-- corollary in the words of the property: when every token's value is its source text
 (`src[index : index+len] = value`), the characters under the carets are exactly the source
-characters of the bad token. -/
+characters of the bad token.  Since repo 5f4cdd1 no mindsdb lexer action rewrites `token.value`, so
+`hsrc` holds for every token list the real lexer produces; the lexer is not modelled, hence it stays a
+hypothesis, checked on every token list of the stream (obligation `probe:value-is-source`). -/
 theorem C19_caret_source (src : List Char) (toks : List Tok) (b : Tok) (hl : layoutOK toks = true)
     (hb : b ∈ toks) (hsrc : ∀ t ∈ toks, (src.drop t.index).take t.value.length = t.value) :
     ∃ (ctx : List (List Char)) (shown : List Char) (c : Nat),
@@ -202,19 +205,24 @@ theorem C19_suggestions_sentence_mindsdb (raises : List Nat → Bool) (nm : Name
 /-! ### T19.4 the lexer's message -/
 
 /-- **T19.4**: if the illegal character is at column `col` of line number `pre.length` (0-based)
-of `text.split('\n')`, the loop finds exactly that line and column; the caret line is
-`'-'*(col+1) ++ '^'` and, unless it is the first line, the previous and the offending line are shown. -/
+of `text.split('\n')`, the loop finds exactly that line and column: the message shows at most one
+context line (the previous source line), then the offending line, then `'-'*(col+1) ++ '^'`. -/
 theorem C19_lexer_caret (pre post : List (List Char)) (line : List Char) (col : Nat)
     (hc : col < line.length) :
     let index := offs pre + col
-    lexErrorOn (pre ++ line :: post) index =
-      (pySlice (pre ++ line :: post) ((pre.length : Int) - 1) (pre.length + 1)).map (fun l => '>' :: l)
-        ++ [List.replicate (col + 1) '-' ++ ['^']] := by
+    ∃ ctx : List (List Char), ctx.length ≤ 1 ∧ ctx = pre.drop (pre.length - 1) ∧
+      lexErrorOn (pre ++ line :: post) index =
+        ctx.map (fun l => '>' :: l) ++ ['>' :: line, List.replicate (col + 1) '-' ++ ['^']] := by
   intro index
   have := lexLoop_spec index col line post pre ⟨0, 0, 0, 0⟩ (by simp [index]) hc
+  refine ⟨pre.drop (pre.length - 1), by simp; omega, rfl, ?_⟩
   unfold lexErrorOn
   simp only at this ⊢
   rw [this.1, this.2]
+  have h1 : (pre ++ line :: post).take (0 + pre.length + 1) = pre ++ [line] := by
+    have : pre ++ line :: post = (pre ++ [line]) ++ post := by simp
+    rw [this, List.take_left' (by simp)]
+  rw [h1, List.drop_append_of_le_length (by omega)]
   simp
 
 /-! ### T19.2 which token is the bad one -/
@@ -256,8 +264,9 @@ example : ErrLex.attrs.getD ErrLex.idTok (some "") = none := by decide +kernel
 def tk (ty : Nat) (v : String) (ln ix : Nat) : Tok := ⟨ty, v.toList, ln, ix⟩
 def msg (toks : List Tok) (bad : Option Tok) : List String := (errorLocation toks bad).map String.ofList
 
-/-- `select @aa @bb` (the lexer strips the `@`): 2 carets for a 3-character source token;
-the layout hypotheses hold, so this is what `value ≠ source` costs. -/
+/-- model-level witness that `hsrc` of `C19_caret_source` is needed (it described the code until repo
+5f4cdd1, when the lexer still stripped the `@` of `select @aa @bb`): 2 carets for a 3-character
+source token; the layout hypotheses hold, so this is what `value ≠ source` costs. -/
 def wShort : List Tok := [tk 0 "select" 1 0, tk 1 "aa" 1 7, tk 1 "bb" 1 11]
 theorem C19_witness_short_caret :
     layoutOK wShort = true ∧
@@ -304,12 +313,14 @@ theorem C19_witness_replace_previous :
 /-- and for bad index 0 the slice is `tokens[:-1]`: the LAST-BUT-ONE prefix is kept -/
 theorem C19_witness_replace_index0 : repList [1, 2, 3] 0 9 = [1, 2, 9, 1, 2, 3] := by decide
 
-/-- `MindsDBLexer.error` on the first line of a multi-line text: `lines[-1:1]` is empty, no source
-line is shown (`select #\nfrom t`) -/
-theorem C19_witness_lexer_first_line :
-    (lexError "select #\nfrom t".toList 7).map String.ofList = ["--------^"] ∧
+/-- regression pins of two repaired defects (former KF-C19-5 / KF-C19-7): an illegal character on
+the first line of a multi-line text shows its line; a regex source with `\\s` or `|` gives no display value -/
+example : (lexError "select #\nfrom t".toList 7).map String.ofList = [">select #", "--------^"] ∧
     (lexError "select a\nfrom t #".toList 16).map String.ofList = [">select a", ">from t #", "--------^"] := by
   decide
+example : buildExpected wNames (fun t => if t = 1 then some "\\bNOT[\\s]+EXISTS\\b".toList
+      else if t = 2 then some "\\bIF\\b".toList else if t = 3 then some "\\|\\|".toList else none) [1, 2, 3] [] =
+    [("IF".toList, 2)] := by decide
 
 /-! ### non-vacuity -/
 example : layoutOK [tk 0 "select" 1 2, tk 1 "a" 2 13, tk 1 "b" 2 15, tk 1 "c" 2 17] = true := by decide
